@@ -754,6 +754,13 @@ class RealBackend(object):
     def result(self, val):
         A.result(val)
 
+    def set_option(self, inst, name, value):
+        """User code flips a debug option in the middle of a task step."""
+        if name in DEFAULT_OPTIONS:
+            self.ev("option", name, bool(value))
+            self.fired("option_toggled_mid_step")
+            setattr(_adebug.options, name, bool(value))
+
     def handed_out(self, fut):
         if isinstance(fut, A.AsyncTask):
             ci = _inst_of(fut)
